@@ -808,7 +808,11 @@ class Interp(BuiltinsMixin, StmtMixin, DictMixin):
         if isinstance(obj, VPy) and isinstance(obj.obj, dict) and \
                 isinstance(idx, (VStr, VInt)) and \
                 not is_concrete(z3.simplify(idx.e)):
-            # constant table indexed by a symbolic key: case split
+            # constant table indexed by a symbolic key
+            merged = self.merged_lookup(obj.obj, idx, st, fr)
+            if merged is not None:
+                return merged
+            # ... otherwise: case split
             for k, v in obj.obj.items():
                 if self.dec.branch(st, self.same(idx, self.lift(k))):
                     return self.lift(v)
@@ -844,6 +848,40 @@ class Interp(BuiltinsMixin, StmtMixin, DictMixin):
                 i = models.norm_index(i, n)
             return self.elem_val(obj, z3.Select(self.list_items(obj, st), i))
         raise Unsupported(f"subscript of {obj} by {idx}")
+
+    def merged_lookup(self, table, idx, st, fr):
+        """table[idx] for a literal dict and a symbolic key *without* a path
+        split (opt-in: uni.merge_const_lookup): the result is a fresh value
+        constrained by the disjunction over the entries.  Supported value
+        shapes: all str, or all list-of-str literals."""
+        if not getattr(self.uni, "merge_const_lookup", False) or not table:
+            return None
+        vals = list(table.values())
+        keys = [self.same(idx, self.lift(k)) for k in table]
+        if fr.spec:
+            return None
+        if all(isinstance(v, str) for v in vals):
+            if not self.dec.branch(st, z3.Or(keys)):
+                raise PyRaise(VExc("KeyError"))
+            r = fresh("lookup", STR)
+            st.assume(z3.Or([z3.And(k, r == z3.StringVal(v))
+                             for k, v in zip(keys, vals)]))
+            return VStr(r)
+        if all(isinstance(v, list) and v and
+               all(isinstance(x, str) for x in v) for v in vals):
+            if not self.dec.branch(st, z3.Or(keys)):
+                raise PyRaise(VExc("KeyError"))
+            lst = self.alloc(st, "list", "str", "lookup")
+            arr = fresh("lookup_items", z3.ArraySort(INT, STR))
+            n = fresh("lookup_len", INT)
+            self.set_list(lst, st, arr, n)
+            cases = []
+            for k, v in zip(keys, vals):
+                cases.append(z3.And([k, n == len(v)] + [
+                    arr[i] == z3.StringVal(x) for i, x in enumerate(v)]))
+            st.assume(z3.Or(cases))
+            return lst
+        return None
 
     def mkval(self, e, tag):
         if base_tag(tag) == "ref":
